@@ -822,7 +822,8 @@ func (g *G) mapObjectResult(meth *m.Method) {
 	if g.p.Tags && !isResultType {
 		var tagAttrs []*m.Field
 		for _, f := range fields {
-			if f.Attr.Type.Kind == m.String && f.Attr.V.Empty() && f.Attr.Default == nil {
+			// (also a string with a default: the service result then has a plain string field, not a pointer)
+			if f.Attr.Type.Kind == m.String && f.Attr.V.Empty() {
 				tagAttrs = append(tagAttrs, f)
 			}
 		}
